@@ -39,7 +39,10 @@ problem => a broken obligation of C17):
                `a - b`, `a / p`, `.astype(int)` (frame indices, truncation), `min(xs)` / `max(xs)` (ValueError when empty),
                `list(itertools.chain(*list(itertools.chain(*H))))`, `scipy.sparse.lil_matrix((n, n), dtype=np.uint8)`
                (ValueError for n < 0), `M[s, s'] = level` with slices of integer bounds on a matrix the function built,
-               `.tocsr()`.  A parameter documented `number or ndarray` (`_round`) gives one definition per kind that is used
+               `.tocsr()`, `scipy.sparse.csr_matrix(M)`; labels: `util.index_labels(labels)[0]` (EXTERN: codes equal exactly for
+               labels equal after str.lower), `np.triu(np.equal.outer(e, e))` and `zip(*np.where(<that>))` (the index pairs
+               i <= j with equal codes, row-major), `frames[i]` (IndexError), `slice(*list(<pair>))`,
+               `enumerate(zip(a, b), 1)`.  A parameter documented `number or ndarray` (`_round`) gives one definition per kind that is used
                (`_round` for numbers, `_round_nd` for (n, 2) arrays).
 
 `python harness/translate/hierarchy.py [repo]` prints the generated file.
@@ -59,11 +62,12 @@ except ImportError:  # run as a script
     from translate.segindex import Unsupported, ident, indent, lean_rat, dotted, assigned_names
 
 # functions of mir_eval/hierarchy.py, in emission order; REQUIRED: one that leaves the subset is a translator problem
-WANTED = ["_count_inversions", "_compare_frame_rankings", "_gauc", "_round", "_hierarchy_bounds", "_lca"]
+WANTED = ["_count_inversions", "_compare_frame_rankings", "_gauc", "_round", "_hierarchy_bounds", "_lca", "_meet"]
 
 NAT, INT, RAT, BOOL, UNIT = ("nat",), ("int",), ("rat",), ("bool",), ("unit",)
 SLICE, ISLICE, MAT, ROW = ("slice",), ("islice",), ("mat",), ("row",)
 IVALS, HIER, STRS, LABHIER, IFRAMES = ("ivals",), ("hier",), ("strs",), ("labhier",), ("iframes",)
+LABKEYS, AGREE, TRIU = ("labkeys",), ("agree",), ("triu",)      # label codes; their equality matrix; its upper triangle
 NUMERIC = (NAT, INT, RAT)
 P = "Mir.PyH."
 
@@ -100,10 +104,12 @@ DECL.update({
     "_round": [("t", POLY, r"number or ndarray"), ("frame_size", RAT, r"number > 0")],
     "_hierarchy_bounds": [("intervals_hier", HIER, r"list of ndarray")],
     "_lca": [("intervals_hier", HIER, r"list of ndarray"), ("frame_size", RAT, r"number")],
+    "_meet": [("intervals_hier", HIER, r"list of ndarray"), ("labels_hier", LABHIER, r"list of list of str"),
+              ("frame_size", RAT, r"number")],
 })
 POLY_KINDS = [(RAT, ""), (IVALS, "_nd")]
 # declared preconditions `p > 0`
-POSITIVE = {"_round": ["frame_size"], "_lca": ["frame_size"]}
+POSITIVE = {"_round": ["frame_size"], "_lca": ["frame_size"], "_meet": ["frame_size"]}
 
 
 def lean_type(t):
@@ -144,6 +150,8 @@ def lean_type(t):
         return "(List (List String))"
     if k == "iframes":
         return "(List (Int × Int))"
+    if k in ("labkeys", "agree", "triu"):
+        return "(List String)"
     raise Unsupported("no Lean type for %r" % (t,))
 
 
@@ -716,6 +724,15 @@ class Body:
             if n.ty != NAT or not isinstance(target, ast.Name):
                 raise Unsupported("range(<%s>)" % show_type(n.ty), node)
             return ("(List.range %s)" % n.term, "Nat"), ident(target.id), {target.id: NAT}
+        if builtin(it, "zip") and len(it.args) == 1 and isinstance(it.args[0], ast.Starred):
+            w = it.args[0].value
+            if isinstance(w, ast.Call) and dotted(w.func) == "np.where" and len(w.args) == 1 and not w.keywords:
+                x = self.expr(w.args[0], env, binds)
+                if x.ty == TRIU:
+                    ns = names_of(target, 2)
+                    return (("(%striuAgree %s)" % (P, x.term), "(Nat × Nat)"), "(%s, %s)" % (ident(ns[0]), ident(ns[1])),
+                            {ns[0]: NAT, ns[1]: NAT})
+            raise Unsupported("zip(*...) other than zip(*np.where(np.triu(np.equal.outer(e, e))))", node)
         if builtin(it, "zip") and len(it.args) in (2, 4):
             es = [self.expr(a, env, binds) for a in it.args]
             if any(e.ty[0] != "vec" for e in es):
@@ -726,8 +743,12 @@ class Body:
             return (("(%s %s)" % (fn, " ".join(e.term for e in es)), lean_type(TUP(tys))),
                     "(%s)" % ", ".join(ident(n) for n in ns), dict(zip(ns, tys)))
         if builtin(it, "enumerate") and len(it.args) == 2:
-            xs = self.expr(it.args[0], env, binds)
             st = const_expr(it.args[1])
+            if builtin(it.args[0], "zip") and len(it.args[0].args) == 2:
+                za, zb = [self.expr(a, env, binds) for a in it.args[0].args]
+                xs = E("(List.zip %s %s)" % (za.term, zb.term), VEC(TUP([self.elem_type(za.ty), self.elem_type(zb.ty)])))
+            else:
+                xs = self.expr(it.args[0], env, binds)
             if xs.ty[0] != "vec" and xs.ty not in (HIER,) or st.ty != NAT:
                 raise Unsupported("enumerate(<%s>, <%s>)" % (show_type(xs.ty), show_type(st.ty)), node)
             ety = self.elem_type(xs.ty)
@@ -939,6 +960,14 @@ class Body:
 
     def subscript(self, node, env, binds):
         idx = node.slice
+        v = node.value
+        if isinstance(v, ast.Call) and dotted(v.func) == "util.index_labels":
+            if not (isinstance(idx, ast.Constant) and idx.value == 0 and type(idx.value) is int and len(v.args) == 1 and not v.keywords):
+                raise Unsupported("only util.index_labels(labels)[0] is modelled", node)
+            labs = self.expr(v.args[0], env, binds)
+            if labs.ty != STRS:
+                raise Unsupported("util.index_labels of a %s" % show_type(labs.ty), node)
+            return E("(%slabelKeys %s)" % (P, labs.term), LABKEYS)
         a = self.expr(node.value, env, binds)
         # ---- x[lo:hi] -------------------------------------------------------------------------
         if isinstance(idx, ast.Slice):
@@ -976,6 +1005,9 @@ class Body:
                 return a.elts[k]
             proj = a.term + "".join(".2" for _ in range(k)) + (".1" if k < n - 1 else "")
             return E("(%s)" % proj, a.ty[1][k])
+        if a.ty == IFRAMES and i.ty == NAT:
+            tmp = self.bind(binds, "%sgetItem %s %s" % (P, a.term, i.term), TUP([INT, INT]))
+            return E(tmp, TUP([INT, INT]))
         if a.ty[0] == "vec":
             if i.ty == NAT:
                 tmp = self.bind(binds, "%sgetItem %s %s" % (P, a.term, i.term), a.ty[1])
@@ -1031,6 +1063,16 @@ class Body:
                 if x.ty != HIER:
                     raise Unsupported("itertools.chain(*list(itertools.chain(*<%s>)))" % show_type(x.ty), node)
                 return E("(%schain2 %s)" % (P, x.term), VEC(RAT))
+        if name == "slice" and self.is_builtin("slice") and len(node.args) == 1 and isinstance(node.args[0], ast.Starred) \
+                and not node.keywords:
+            x = node.args[0].value
+            if isinstance(x, ast.Call) and isinstance(x.func, ast.Name) and x.func.id == "list" and self.is_builtin("list") \
+                    and len(x.args) == 1 and not x.keywords:
+                x = x.args[0]
+            pr = self.expr(x, env, binds)
+            if pr.ty != TUP([INT, INT]):
+                raise Unsupported("slice(*<%s>)" % show_type(pr.ty), node)
+            return E("(%s : %s)" % (pr.term, lean_type(ISLICE)), ISLICE)
         if any(isinstance(a, ast.Starred) for a in node.args) or any(k.arg is None for k in node.keywords):
             raise Unsupported("starred argument", node)
         args = node.args
@@ -1076,6 +1118,23 @@ class Body:
             if t.ty == IVALS:
                 return E("(%smapIvals (fun _v => %snpMod _v %s) %s)" % (P, P, ident(m.id), t.term), IVALS)
             raise Unsupported("np.mod of a %s" % show_type(t.ty), node)
+        if name == "np.equal.outer" and len(args) == 2 and nokw:
+            if not (isinstance(args[0], ast.Name) and isinstance(args[1], ast.Name) and args[0].id == args[1].id):
+                raise Unsupported("np.equal.outer of two different arrays", node)
+            x = self.expr(args[0], env, binds)
+            if x.ty != LABKEYS:
+                raise Unsupported("np.equal.outer of a %s" % show_type(x.ty), node)
+            return E(x.term, AGREE)
+        if name == "np.triu" and len(args) == 1 and nokw:
+            x = self.expr(args[0], env, binds)
+            if x.ty != AGREE:
+                raise Unsupported("np.triu of a %s" % show_type(x.ty), node)
+            return E(x.term, TRIU)
+        if name == "scipy.sparse.csr_matrix" and len(args) == 1 and nokw:
+            x = self.expr(args[0], env, binds)
+            if x.ty != MAT:
+                raise Unsupported("csr_matrix of a %s" % show_type(x.ty), node)
+            return x
         if name == "np.asarray" and len(args) == 1 and nokw:
             x = self.expr(args[0], env, binds)
             if x.ty != IVALS:
